@@ -35,6 +35,9 @@ def templates(rng, n):
         "var lim{n} = {k}\nvar cnt{n} = 0\nfor (var i{n} = 0; i{n} < lim{n}; ++i{n}) {{\n  if (i{n} == 1) {{ lim{n} = lim{n} - 1 }}\n  ++cnt{n}\n}}\nprint(cnt{n})",
         "var cnt{n} = 0\nfor (var i{n} = {k}; i{n} > 0; --i{n}) {{ ++cnt{n} }}\nfor (var i{n} = 0; i{n} <= {k}; ++i{n}) {{ ++cnt{n} }}\nfor (var i{n} = 0; {k} > i{n}; ++i{n}) {{ ++cnt{n} }}\nprint(cnt{n})",
         "var cnt{n} = 0\nfor (var i{n} = 0.0; i{n} < {k}; ++i{n}) {{ ++cnt{n} }}\nfor (var i{n} = 0; i{n} < {k}.5; ++i{n}) {{ ++cnt{n} }}\nfor (auto i{n} = 0; i{n} < {k}; ++i{n}) {{ ++cnt{n} }}\nprint(cnt{n})",
+        # loop variable re-pointed to another int inside the body (the counted loop must follow it)
+        "var cnt{n} = 0\nfor (var i{n} = 0; i{n} < {k}; ++i{n}) {{\n  var j{n} = {a}\n  if (cnt{n} == 1) {{ i{n} := j{n} }}\n  ++cnt{n}\n  if (cnt{n} > 20) {{ break }}\n}}\nprint(cnt{n})",
+        "def rp{n}() {{\n  var seen = []\n  for (var i{n} = 0; i{n} < {k}; ++i{n}) {{\n    var j{n} = {k} - 2\n    i{n} := j{n}\n    seen.push_back(i{n})\n    if (seen.size() > 20) {{ break }}\n  }}\n  return seen\n}}\nprint(rp{n}())\nprint(rp{n}())",
         # counter modified in the body
         "for (var i{n} = 0; i{n} < {k}; ++i{n}) {{\n  if (i{n} == 1) {{ i{n} += 1 }}\n  print(i{n})\n}}",
         # body shadows the counter / declares variables / breaks / continues
